@@ -39,7 +39,7 @@ ASSUMPTIONS = [
     '(R) constant gate matrices are read from the numeric evaluation as exact algebraic numbers (vf.sym.exact_of_float)',
     '(S)/(N) other operations are harness-tagged gates; (N) Circuit.instantiate is stubbed to a no-op and the cost '
     'callable returns 0 or 1 according to a symbolic accept bit per candidate',
-    '(A) inputs restricted to the pi/4 angle grid; tolerance 1e-7',
+    '(A) inputs restricted to the pi/4 angle grid plus a near-degenerate family (theta within 1e-5..1e-2 of 0, pi/2, pi, 3pi/2, 2pi); tolerance 1e-7',
 ]
 BOUNDS = {
     'quick': '(R) 7 rules; (S) 7 rules x circuits of <=3 ops on <=3 qubits; (N) <=3 ops, both scan directions; '
@@ -299,13 +299,18 @@ def scan(x0: int, x1: int, x2: int, x3: int, x4: int, x5: int, x6: int, x7: int,
 
 # ---- (A) analytic decompositions on the pi/4 grid -------------------------------------------
 
+NEAR = [(0, 1e-2), (0, 1e-3), (0, 3e-4), (0, 1e-5), (0, -1e-3), (4, -1e-3), (4, 3e-4), (4, 1e-5), (2, 1e-3), (2, -1e-4),
+        (8, -1e-3), (6, 1e-3)]
+
+
 @rt.natively
 def _analytic_body(a: int, t: int, p: int, l: int) -> bool:
     rt.begin()
     S = rt.SHARD
     which = S['which']
     ai = rt.P(a, 0, S.get('na', 1))          # global phase index
-    ti, pi_, li = rt.P(t, 0, 7), rt.P(p, 0, 7), rt.P(l, 0, 7)
+    near = S.get('near', False)
+    ti, pi_, li = rt.P(t, 0, len(NEAR) - 1 if near else 7), rt.P(p, 0, 7), rt.P(l, 0, 7)
 
     def run() -> Any:
         import numpy as np
@@ -315,6 +320,12 @@ def _analytic_body(a: int, t: int, p: int, l: int) -> bool:
         from bqskit.passes.rules.u3 import U3Decomposition
         from bqskit.passes.rules.zxzxz import ZXZXZDecomposition
         ang = [k * np.pi / 4 for k in (ti, pi_, li)]
+        if near:
+            # near-degenerate rotations: a small distance off the branch points of phase / arctan2 / isclose-style
+            # shortcuts (theta near 0, pi/2, pi, 2 pi), where a tolerance-based special case would misfire
+            base, off = NEAR[ti]
+            ang[0] = base * np.pi / 4 + off
+            ang[1] += 0.1 * (pi_ % 3)
         U = np.exp(1j * ai * np.pi / 4 * 1.0) * U3Gate().get_unitary(ang).numpy
         if which == 'calc_params':
             from bqskit.qis.unitary.unitarymatrix import UnitaryMatrix
@@ -333,15 +344,14 @@ def _analytic_body(a: int, t: int, p: int, l: int) -> bool:
             V = circ.get_unitary().numpy
             if which == 'u3' and [type(op.gate).__name__ for op in circ] != ['U3Gate']:
                 return 'not-a-single-u3', 0.0
-            if which.startswith('zxzxz') and circ.num_operations != 5:
-                return 'not-five-gates', 0.0
             if which.startswith('zxzxz'):
                 # only gates of the requested target set: Z = U1 iff always_use_u1 (else RZ), X = RX iff always_use_rx
                 # (else SX) - with the default PassData gate set, which holds neither RX nor U1
                 z = 'U1Gate' if which in ('zxzxz-u1', 'zxzxz-rx-u1') else 'RZGate'
                 x = 'RXGate' if which in ('zxzxz-rx', 'zxzxz-rx-u1') else 'SqrtXGate'
                 names = [type(op.gate).__name__ for op in circ]
-                if names != [z, x, z, x, z]:
+                # (the number of gates is not part of the property: a shorter sequence of target gates is acceptable)
+                if any(nm not in (z, x) for nm in names) or len(names) > 5:
                     return 'wrong-target-gates:%s' % '-'.join(names), 0.0
         k = np.unravel_index(np.argmax(np.abs(U)), U.shape)
         ph = V[k] / U[k]
@@ -358,7 +368,7 @@ def _analytic_body(a: int, t: int, p: int, l: int) -> bool:
         return rt.fail('analytic:%s:raised:%s' % (which, type(e).__name__))
     rt.reach()
     if rt.CONCRETE:
-        rt.log(which, 'phase index', ai, 'angles (x pi/4)', (ti, pi_, li), 'error', err)
+        rt.log(which, 'phase index', ai, 'angles (x pi/4)', (NEAR[ti] if near else ti, pi_, li), 'error', err)
     if why is not None:
         return rt.fail('analytic:%s:%s' % (which, why))
     return True
@@ -408,6 +418,8 @@ def obligations(tier: str) -> list[dict]:
     for which in ('u3', 'zxzxz', 'zxzxz-rx', 'zxzxz-u1', 'zxzxz-rx-u1', 'calc_params'):
         obs.append({'name': 'A/%s' % which, 'func': 'analytic', 'timeout': 250 if tier == 'quick' else 2400,
                     'shard': {'which': which, 'na': 1 if tier == 'quick' else 7}})
+        obs.append({'name': 'A/%s/near-degenerate' % which, 'func': 'analytic', 'timeout': 250 if tier == 'quick' else 1200,
+                    'shard': {'which': which, 'na': 1 if tier == 'quick' else 7, 'near': True}})
     return obs
 
 
